@@ -111,7 +111,12 @@ pub fn check_with(ctx_kf: &crate::refimpl::treebuilder::Switches, tc: &TreeCase,
         out
     };
     let tw = observe(&cfg, &tw_chunks);
-    if !tw.labels.is_empty() {
+    let low_in = tc.input.to_ascii_lowercase();
+    if low_in.contains("charsex") || low_in.contains("http-equix") {
+        // the renamed spellings already occur in the input: the twin could gain a repeated
+        // attribute name that the original does not have
+        st.exclude("input already contains the twin's replacement spelling");
+    } else if !tw.labels.is_empty() {
         // e.g. "charset" produced by a character reference: not comparable
         st.exclude("twin document still declares an encoding");
     } else if twin(&tw.tree) != twin(&obs.tree) {
